@@ -24,6 +24,7 @@ EXPLANATION = (
 EXPLANATION += (" Premises: C01, C05 and C02 (one execute per scheduled timestep, after the timestep's systems). The record may be allocated with its timestep entry and the agents pass may be one dict comprehension merged by update().")
 EXPLANATION += (' Collector.records is appended only by functions whose documented root is a collect() method.')
 EXPLANATION += (' Whether the timestep is recorded is decided by the truth value of includeTimestep on every path.')
+EXPLANATION += (' Collector.execute calls collect() exactly once on every path.')
 ASSUMPTIONS = ["OS/file-system behaviour between open and close is not decided (crash-point part of the quantifier)",
                "write_count is a non-negative integer"]
 
@@ -237,6 +238,26 @@ def run(cx: Cx):
             cx.violation('R-FWD', ctor.qualname, 'collector-default-priority-below-system-default',
                          f"{ctor.qualname}: default priority {d!r} is not below System's {sys_default!r}: a default collector no longer "
                          f"observes the state left by that timestep's systems", where=cx.where(ctor))
+
+    # ------------------------------------------------------------ Collector.execute
+    # a collector that is executed collects: the scheduler decides when (C02's window, against ITS clock) - an execute() that looks at
+    # the clock again (`if start <= self.model.timestep <= end`) reads the clock of the collector's own model, which is another one
+    # when the collector is registered with a second model's scheduler, and silently records nothing
+    cex_ = cx.fn(COLL + 'Collector.execute')
+    n_ce, bad_ce = 0, None
+    for p_ in cx.walker.paths(cex_, WalkOptions(unroll=1, callee_raises=False)):
+        if p_.end == 'raise':
+            continue
+        n_ce += 1
+        cl_ = [e for e in p_.events if e.kind == 'call' and any(t.name == 'collect' for t in e.data.get('targets', []))]
+        if len(cl_) != 1:
+            bad_ce = bad_ce or p_
+    if bad_ce is not None:
+        cx.violation('R-GUARD', cex_.qualname, 'execute-collects-unconditionally',
+                     f"Collector.execute does not call collect() exactly once on a path [{bad_ce.cond!r}]: whether a scheduled collector "
+                     f"records is decided a second time, by something the scheduler did not look at", where=cx.where(cex_), path=bad_ce.lines())
+    else:
+        cx.ok('R-GUARD', f"Collector.execute calls collect() once on every path ({n_ce} path(s))", where=cx.where(cex_), function=cex_.qualname)
 
     # ------------------------------------------------------------ FileCollector.execute
     fx = cx.fn(COLL + 'FileCollector.execute')
